@@ -1,6 +1,7 @@
 package mon
 
 import (
+	"bytes"
 	"fmt"
 	"runtime"
 	"sort"
@@ -10,8 +11,10 @@ import (
 
 	"github.com/anishathalye/porcupine"
 	"github.com/brocaar/lorawan"
+	"github.com/brocaar/lorawan/applayer/multicastsetup"
 
 	"lwverif/core"
+	"lwverif/spec"
 )
 
 // registry operation as recorded at the client boundary
@@ -105,7 +108,22 @@ func privateWork(r *core.RNG, iters int, yield bool) (ops int, err error) {
 		st := frameOf(up, nil, 0, append([]byte{0xE0, 1, 2, 3, 0x02, 0xE1}, r.Bytes(4)...))
 		st.DecodeFRMPayloadToMACCommands()
 		lorawan.EncryptFOpts(k, false, up, lorawan.DevAddr(d.Spec.DevAddr), d.Spec.FCnt, r.Bytes(r.Intn(16)))
-		ops += 8
+		// application-layer key derivations are crypto operations on private values too
+		mk := key16(r)
+		var ma [4]byte
+		r.Fill(ma[:])
+		if got, e := multicastsetup.GetMcAppSKey(lorawan.AES128Key(mk), lorawan.DevAddr(ma)); e != nil || [16]byte(got) != spec.McKey(mk, [16]byte{0x01, ma[3], ma[2], ma[1], ma[0]}) {
+			return ops, fmt.Errorf("GetMcAppSKey(%x, %x) = %x under concurrency (err %v)", mk, ma, [16]byte(got), e)
+		}
+		if got, e := multicastsetup.GetMcKEKey(lorawan.AES128Key(mk)); e != nil || [16]byte(got) != spec.McKey(mk, [16]byte{}) {
+			return ops, fmt.Errorf("GetMcKEKey(%x) = %x under concurrency (err %v)", mk, [16]byte(got), e)
+		}
+		// and the frame crypto of this goroutine must equal the model, not only be self-consistent
+		pt := r.Bytes(1 + r.Intn(40))
+		if ct, e := lorawan.EncryptFRMPayload(k, up, lorawan.DevAddr(d.Spec.DevAddr), d.Spec.FCnt, append([]byte{}, pt...)); e != nil || !bytes.Equal(ct, spec.XOR(pt, spec.FRMKeystream([16]byte(k), up, d.Spec.DevAddr, d.Spec.FCnt, len(pt)))) {
+			return ops, fmt.Errorf("EncryptFRMPayload under concurrency differs from the keystream model (err %v)", e)
+		}
+		ops += 11
 	}
 	return ops, nil
 }
